@@ -284,7 +284,11 @@ impl Suite for Stress {
         let mut cases = vec![];
         for k in 0..n {
             let s = rng.next() % 1_000_000;
-            let (class, lack) = if k % 4 == 3 { ("stress-lackcol", 1) } else { ("stress-plain", 0) };
+            let (class, lack) = match k % 8 {
+                3 => ("stress-lackcol", 1),
+                6 => ("stress/evict", 2),
+                _ => ("stress-plain", 0),
+            };
             let variant = if k % 2 == 0 { "fresh" } else { "restart" };
             let combine = [1u64, 2, 4][(rng.next() % 3) as usize];
             let ops = if tier == "thorough" { 160 } else { 80 };
